@@ -64,6 +64,7 @@ func (f *Frame) execCall(instr *ssa.Call, cc *ssa.CallCommon, reach string, st *
 	if cc.IsInvoke() {
 		recv := f.val(cc.Value)
 		f.oblig("nil-deref", pos, f.srcTextOr(pos, "invoke "+cc.Method.Name()), reach, fmt.Sprintf("(not (= (ityp %s) 0))", recv))
+		f.callSiteAsserts(instr, cc, "invoke."+cc.Method.Name(), append([]string{recv}, args...), reach, st)
 		ic := f.eng.ifaceContract(cc)
 		hint := "inv_" + cc.Method.Name()
 		if ic == nil {
@@ -116,6 +117,7 @@ func (f *Frame) execCall(instr *ssa.Call, cc *ssa.CallCommon, reach string, st *
 		f.lockOp(args[0], false, reach, st, pos)
 		return
 	}
+	f.callSiteAsserts(instr, cc, FuncName(callee), args, reach, st)
 	fc := f.eng.contractFor(callee)
 	hint := callee.Name()
 	if fc != nil && !fc.Inline {
@@ -298,7 +300,7 @@ func (f *Frame) applyContract(instr *ssa.Call, fc *FuncContract, callee *ssa.Fun
 		case "Ptr":
 			modObjs = append(modObjs, "(pobj "+v.t+")")
 		case "Slice":
-			modObjs = append(modObjs, "(pobj (sbase "+v.t+"))")
+			modObjs = append(modObjs, "slice:"+v.t)
 		default:
 			f.bail("contract %s modifies %q: not a pointer or slice", fc.Ref, m.Text)
 		}
@@ -357,6 +359,11 @@ func (f *Frame) callFrame(pos tokenPos, what string, w *WriteSet, modObjs []stri
 		return
 	}
 	for _, m := range modObjs {
+		if strings.HasPrefix(m, "slice:") {
+			s := m[6:]
+			f.storeFrameAt(pos, what, "(pobj (sbase "+s+"))", "", s, And(reach, "(> (slen_ "+s+") 0)"))
+			continue
+		}
 		f.storeFrame(pos, what, m, reach)
 	}
 }
@@ -490,7 +497,7 @@ func (f *Frame) copyOp(instr *ssa.Call, cc *ssa.CallCommon, reach string, st *St
 	} else {
 		slen = fmt.Sprintf("(slen_ %s)", src)
 	}
-	f.storeFrame(cc.Pos(), f.srcTextOr(cc.Pos(), "copy"), "(pobj (sbase "+dst+"))", And(reach, "(> (slen_ "+dst+") 0)"))
+	f.storeFrameAt(cc.Pos(), f.srcTextOr(cc.Pos(), "copy"), "(pobj (sbase "+dst+"))", "", dst, And(reach, "(> (slen_ "+dst+") 0)"))
 	n := f.ctx.Fresh("copy_n", "Int")
 	f.ctx.Fact(fmt.Sprintf("(= %s (ite (<= (slen_ %s) %s) (slen_ %s) %s))", n, dst, slen, dst, slen))
 	if _, ok := et.Underlying().(*types.Basic); !ok {
